@@ -1,5 +1,7 @@
 (** Model of the receiving side of C19: lib/netio.c:net_readbin (with readinput and
-    get_from_inbuffer) and qsmtpd/data.c:smtp_bdat (with fixes/C19-bdat-rx-trailing-cr.diff).
+    get_from_inbuffer) and qsmtpd/data.c:smtp_bdat, in both versions: [c_fix] = the CR held back at the
+    very end of the data is written behind the read loop (fixes/C19-bdat-rx-trailing-cr.diff) instead
+    of inside it; the translator reports which version the C of this run is (RX_CR_AFTER_LOOP).
     Executable definitions only.
 
     Kept from the C: linenlen/lineinn (the list [n_ln]), num/offs, chunksize, chunk,
@@ -135,7 +137,7 @@ Fixpoint crlf_loop (fuel : nat) (buf : bytes) (pos rlen : nat) (cr : option nat)
 (** everything done with one buffer [d] = inbuf[0 .. chunk), chunk > 0: the write made
     before lastcr is assigned (the CR held back from the previous buffer), the new
     lastcr, and the writes made afterwards, in order *)
-Definition piece (lastcr : bool) (d : bytes) : Cres (list bytes * bool * list bytes) :=
+Definition piece (lastcr : bool) (addcr : bool) (d : bytes) : Cres (list bytes * bool * list bytes) :=
   let chunk := length d in
   if Nat.eqb chunk 0 then Crash 51 else
   let w0 := if lastcr && negb (N.eqb (nth 0 d 0%N) LF) then [[CR]] else [] in
@@ -145,7 +147,8 @@ Definition piece (lastcr : bool) (d : bytes) : Cres (list bytes * bool * list by
   do r <- crlf_loop (S chunk') buf 0 chunk' (Some 0) [];
   let '(ws, buf', pos, rlen) := r in
   if Nat.ltb (length buf') (pos + rlen) then Crash 52 else
-  Ok (w0, lastcr', ws ++ [sub buf' pos rlen]).
+  (* unrepaired code, final buffer of the LAST chunk: pos[rlen++] = '\r' (the slot of the NUL) *)
+  Ok (w0, lastcr', ws ++ [sub buf' pos rlen ++ (if addcr && lastcr' then [CR] else [])]).
 
 (** * qsmtpd/data.c: smtp_bdat *)
 Inductive err := E0 | EDONE | EMSGSIZE | EPIPE | EBADF | EIO.
@@ -161,7 +164,8 @@ Inductive ev :=
 | EvReply (code : nat) | EvEnv (n : nat) | EvReset | EvFree | EvTarpit
 | EvRc (e : err) | Ev503.
 
-Record rxcfg := mk_cfg { c_qinit_fail : bool; c_wfail : option nat; c_maxbytes : nat; c_rs : nat (* sizeof(inbuf) *) }.
+Record rxcfg := mk_cfg { c_qinit_fail : bool; c_wfail : option nat; c_maxbytes : nat; c_rs : nat (* sizeof(inbuf) *);
+                          c_fix : bool (* the repaired smtp_bdat *) }.
 
 Record rxst := mk_rx {
   r_com : comst; r_lastcr : bool; r_bdaterr : err; r_msgsize : nat; r_goodrcpt : bool;
@@ -193,7 +197,7 @@ Fixpoint q_writes (cfg : rxcfg) (s : rxst) (bs : list bytes) : option err * rxst
 Inductive loop_end := LoopOk | LoopErrWrite (e : err) | LoopDied.
 
 (** the [while (chunksize > 0)] loop *)
-Fixpoint chunk_loop (fuel : nat) (cfg : rxcfg) (chunksize : nat) (s : rxst) (evs : list ev)
+Fixpoint chunk_loop (fuel : nat) (cfg : rxcfg) (last : bool) (chunksize : nat) (s : rxst) (evs : list ev)
   : Cres (loop_end * rxst * list ev) :=
   if Nat.eqb chunksize 0 then Ok (LoopOk, s, evs) else
   match fuel with
@@ -211,9 +215,10 @@ Fixpoint chunk_loop (fuel : nat) (cfg : rxcfg) (chunksize : nat) (s : rxst) (evs
                             (r_wcount s1) (r_net s1), evs)
       | RData d =>
           let chunk := length d in
-          if Nat.eqb chunk 0 then chunk_loop f cfg chunksize s1 evs else
+          if Nat.eqb chunk 0 then chunk_loop f cfg last chunksize s1 evs else
           if Nat.ltb chunksize chunk then Crash 53 else
-          do p <- piece (r_lastcr s1) d;
+          (* unrepaired: if (LAST && lastcr && (chunksize == 0)) pos[rlen++] = CR; *)
+          do p <- piece (r_lastcr s1) (negb (c_fix cfg) && last && Nat.eqb (chunksize - chunk) 0) d;
           let '(w0, lastcr', ws) := p in
           let s2 := mk_rx (r_com s1) (r_lastcr s1) (r_bdaterr s1) (r_msgsize s1 + chunk) (r_goodrcpt s1)
                           (r_qdata s1) (r_qhdr s1) (r_wcount s1) (r_net s1) in
@@ -226,7 +231,7 @@ Fixpoint chunk_loop (fuel : nat) (cfg : rxcfg) (chunksize : nat) (s : rxst) (evs
               let '(wr, s5, wevs) := q_writes cfg s4 ws in
               match wr with
               | Some e => Ok (LoopErrWrite e, s5, evs ++ wevs0 ++ wevs)
-              | None => chunk_loop f cfg (chunksize - chunk) s5 (evs ++ wevs0 ++ wevs)
+              | None => chunk_loop f cfg last (chunksize - chunk) s5 (evs ++ wevs0 ++ wevs)
               end
           end
       end
@@ -254,7 +259,7 @@ Definition smtp_bdat (cfg : rxcfg) (size : nat) (last : bool) (s : rxst) : Cres 
         else
           (mk_rx CsBdat false E0 0 (r_goodrcpt s) true true (r_wcount s) (r_net s), [EvInit; EvHdr])
     end in
-  do r <- chunk_loop (S size) cfg size s1 ev1;
+  do r <- chunk_loop (S size) cfg last size s1 ev1;
   let '(le, s2, ev2) := r in
   match le with
   | LoopDied => Ok (None, s2, ev2)
@@ -262,7 +267,7 @@ Definition smtp_bdat (cfg : rxcfg) (size : nat) (last : bool) (s : rxst) : Cres 
   | LoopOk =>
       (* the repaired code: a CR held back at the very end of the data *)
       let '(wr, s3, ev3) :=
-        if last && r_lastcr s2 && err_eqb (r_bdaterr s2) E0 then
+        if c_fix cfg && last && r_lastcr s2 && err_eqb (r_bdaterr s2) E0 then
           let '(wr, s', e') := q_write cfg s2 [CR] in
           (wr, mk_rx (r_com s') (match wr with None => false | Some _ => r_lastcr s' end) (r_bdaterr s') (r_msgsize s')
                      (r_goodrcpt s') (r_qdata s') (r_qhdr s') (r_wcount s') (r_net s'), ev2 ++ e')
